@@ -38,9 +38,43 @@ def lower(src):
     directives = {}
     func = None
     pending = []
+    enum_ind = None      # inside an anonymous `cdef enum:` block: indentation of its header
+    enum_next = 0
     for ln in src.splitlines():
         s = ln.strip()
         ind = ln[:len(ln) - len(ln.lstrip())]
+        if enum_ind is not None:
+            if not s or s.startswith("#"):
+                out.append(ln)
+                continue
+            if len(ind) > len(enum_ind):
+                # enumerators: NAME [= constant expression][,]  ->  module-level integer constants
+                body = s.split("#")[0].strip().rstrip(",")
+                stm = []
+                for item in [x.strip() for x in body.split(",") if x.strip()]:
+                    m = re.match(r"(\w+)(?:\s*=\s*(.+))?$", item)
+                    if not m:
+                        raise HarnessError("lower_pyx: enumerator %r" % item)
+                    if m.group(2) is not None:
+                        stm.append("%s = %s" % (m.group(1), m.group(2)))
+                        enum_next = None
+                        last = m.group(1)
+                    else:
+                        stm.append("%s = %s" % (m.group(1), enum_next if enum_next is not None else last + " + 1"))
+                        last = m.group(1)
+                        enum_next = None
+                out.append(enum_ind + "; ".join(stm))
+                continue
+            enum_ind = None
+        m = re.match(r"cdef\s+enum(?:\s+\w+)?\s*:\s*(?:#.*)?$", s)
+        if m:
+            enum_ind, enum_next = ind, 0
+            out.append(ind + "pass  # " + s)
+            continue
+        m = re.match(r"DEF\s+(\w+)\s*=\s*(.+)$", s)
+        if m:
+            out.append(ind + "%s = %s" % (m.group(1), m.group(2)))
+            continue
         if s.startswith("cimport ") or s.startswith("ctypedef "):
             out.append(ind + "pass  # " + s)
             continue
